@@ -60,14 +60,20 @@ def check_success(ctx, w, pre, post, placed):
                            'positive amount on p%d rc%d without inventory'
                            % (pid, rcid), sig='p%d/rc%d' % (pid, rcid))
                 continue
-            inv = invs[0]
-            v = inv.vals
+            # several rows may stand for the key (an optional old row and
+            # one inserted by the request); at most one is present
+            from engine.scenario import _merged
+            from engine.symdb import Or as _Or, zbool as _zb
+            present = _zb(_Or(*[i.present for i in invs]))
+            v = {f: _merged(invs, f)[1] for f in (
+                'total', 'reserved', 'min_unit', 'max_unit', 'step_size',
+                'allocation_ratio')}
             obligation(ctx, 'inventory-exists',
-                       z3.And(pos, z3.Not(zpres(inv))),
+                       z3.And(pos, z3.Not(present)),
                        'positive amount on p%d rc%d without inventory'
                        % (pid, rcid))
             for a in amounts:
-                bad = z3.And(a > 0, z3.Or(
+                bad = z3.And(a > 0, present, z3.Or(
                     a < to_z3(v['min_unit']), a > to_z3(v['max_unit']),
                     symex.z_mod(a, to_z3(v['step_size'])) != 0))
                 obligation(ctx, 'unit-constraints', bad,
@@ -75,7 +81,7 @@ def check_success(ctx, w, pre, post, placed):
                            % (pid, rcid))
             cap = capacity(v)
             obligation(ctx, 'capacity',
-                       z3.And(pos, z3.ToReal(total_post) > cap),
+                       z3.And(pos, present, z3.ToReal(total_post) > cap),
                        'total used exceeds (total-reserved)*ratio on p%d rc%d'
                        % (pid, rcid))
         # (b) where nothing positive was placed, usage never grows
@@ -194,12 +200,40 @@ def fam_post(nprov, rcs, clear_first=False, version='1.36'):
                                         '(one possibly clearing), 1 bystander'))
 
 
+def fam_reshape(move=True):
+    """POST /reshaper: VCPU inventory moves from p1 to p2 (new symbolic
+    total / max_unit), c1's allocation follows; capacity is judged against
+    the inventory the reshape leaves behind."""
+    from checks import corpus
+
+    def path(ctx):
+        app.setup()
+        with corpus.std_world(ctx) as w:
+            pre = w.dump()
+            req = corpus.reshape(move, 2)
+            r = req(ctx, w, None)
+            post = w.dump()
+            if r.status == 204:
+                placed = {(2, w.rcs['VCPU']): [ctx.int('amt_0')]} if move \
+                    else {}
+                check_success(ctx, w, pre, post, placed)
+            elif r.status >= 500:
+                runner.violation(ctx, 'no-5xx', 'status %d' % r.status)
+            return finish(ctx, str(r.status))
+    return Family('reshape-%s' % ('move' if move else 'clear'), path,
+                  expect={'204', '409'},
+                  bounds=dict(providers='root + child', request='reshaper '
+                              'moving a class between providers with the '
+                              'allocation following it'))
+
+
 def families(tier):
-    fams = [fam_put(1, ['VCPU']),
+    fams = [fam_put(1, ['VCPU']), fam_reshape(True),
             fam_post(1, ['VCPU']),
             fam_post(1, ['VCPU'], clear_first=True)]
     if tier == 'thorough':
-        fams += [fam_put(2, ['VCPU']), fam_put(1, ['VCPU', 'DISK_GB']),
+        fams += [fam_reshape(False),
+                 fam_put(2, ['VCPU']), fam_put(1, ['VCPU', 'DISK_GB']),
                  fam_post(2, ['VCPU']),
                  fam_put(1, ['VCPU'], version='1.12'),
                  fam_put(1, ['VCPU'], version='1.39')]
